@@ -815,10 +815,13 @@ pub fn gen_matrix(rng: &mut Rng, m: usize, counts: [usize; K], allow_finite_wild
             // dyadic entries: many exactly tied word scores
             label = "mat-dyadic";
             let den = *rng.pick(&[1i32, 2, 4, 8]);
+            // one time in three every entry of the matrix has the same sign (rows whose minimum is
+            // positive / whose maximum is negative: the offsets of the integer matrix change sign)
+            let shift = *rng.pick(&[0i32, 0, 0, 0, 26, -18]);
             for _ in 0..m {
                 let mut r = [ninf; K];
                 for j in 0..4 {
-                    r[j] = (rng.range(0, 40) as i32 - 24) as f32 / den as f32;
+                    r[j] = (rng.range(0, 40) as i32 - 24 + shift) as f32 / den as f32;
                 }
                 rows.push(r);
             }
